@@ -107,7 +107,8 @@ def isoDaysInMonth (year month : Int) : Out Int :=
   if month = 1 ∨ month = 3 ∨ month = 5 ∨ month = 7 ∨ month = 8 ∨ month = 10 ∨ month = 12 then .ok 31
   else if month = 4 ∨ month = 6 ∨ month = 9 ∨ month = 11 then .ok 30
   else if month = 2 then do
-    let diy ← mathematicalDaysInYear (epochTimeToEpochYear (MS_PER_DAY * epochDaysForYear year))
+    -- the year is first reduced modulo the 400-year period of the leap rule (keeps the 32-bit day arithmetic in range)
+    let diy ← mathematicalDaysInYear (epochTimeToEpochYear (MS_PER_DAY * epochDaysForYear (year % 400 + 2000)))
     pure (28 + (diy - 365))
   else .panic
 
